@@ -54,6 +54,20 @@ def _norm_slice(s: slice):
 
 
 # ---------------------------------------------------------------- indexing
+def _nan_mask_truth(x, k):
+    """truth of mask element k for array element x when k is isnan(x) or not isnan(x); None if k is something else"""
+    if isinstance(k, bool):
+        return k
+    if not isinstance(k, D):
+        return None
+    neg = False
+    while k.op in ("not", "invert") and len(k.args) == 1 and isinstance(k.args[0], D):
+        k, neg = k.args[0], not neg
+    if k.op == "isnan" and len(k.args) == 1 and isinstance(x, D) and isinstance(k.args[0], D) and k.args[0].h == x.h:
+        return (not False) if neg else False          # isnan(x) taken as False
+    return None
+
+
 def getitem(it, base, key):
     if isinstance(base, NA):
         if base.ndim == 1:
@@ -63,6 +77,19 @@ def getitem(it, base, key):
                 # boolean mask or integer index array
                 if all(isinstance(k, bool) for k in key.data) and len(key.data) == len(base.data):
                     return NA([x for x, k in zip(base.data, key.data) if k], 1)
+                if any(isinstance(k, D) for k in key.data) and len(key.data) == len(base.data):
+                    # the NaN-stripping idiom x[~isnan(x)] / x[logical_not(isnan(x))]: leading warm-up NaNs are constants; a computed
+                    # element is taken to be a number (generic, finite inputs - the same standing assumption as for raw candles)
+                    keep = []
+                    for x, k in zip(base.data, key.data):
+                        r = _nan_mask_truth(x, k)
+                        if r is None:
+                            keep = None
+                            break
+                        keep.append(r)
+                    if keep is not None:
+                        it.assumptions_used = getattr(it, "assumptions_used", set()) | {"isnan(computed value) is False in a NaN-stripping mask (generic finite inputs)"}
+                        return NA([x for x, r in zip(base.data, keep) if r], 1)
                 if any(isinstance(k, D) for k in key.data):
                     raise Undecided("data-dependent fancy index / mask")
                 return NA([base.data[_int(k)] for k in key.data], 1)
